@@ -72,4 +72,19 @@ Section C09.
                 Qeq q (inject_Z (Z.of_nat (out_deg teqb g x + in_deg teqb g x)) /
                        inject_Z (Z.of_nat (length (nodes_vec g)) - 1)).
   Proof. exact (degree_centrality_spec teqb tltb teqb_spec tltb_total). Qed.
+
+  (* weighted variants, for uniformly weighted stores (no NaN weight) *)
+  Theorem C09_weighted_degree : forall (g : gstate) x,
+    WF g -> In x (names g) -> all_real (flat_map snd (edges g)) ->
+    get_node_weighted_degree teqb tltb g x = Ok (Some (Some (w_out teqb g x + w_in teqb g x)%Z)).
+  Proof. exact (get_node_weighted_degree_spec teqb tltb teqb_spec tltb_total). Qed.
+
+  Theorem C09_weighted_handshake : forall (g : gstate),
+    WF g ->
+    zsum_over (fun x => (w_out teqb g x + w_in teqb g x)%Z) (names g) = (2 * zsum (flat_map snd (edges g)))%Z.
+  Proof. exact (weighted_handshake teqb tltb teqb_spec). Qed.
+
+  Theorem C09_size_weighted : forall (g : gstate),
+    all_real (flat_map snd (edges g)) -> size_weighted g = Some (zsum (flat_map snd (edges g))).
+  Proof. exact size_weighted_spec. Qed.
 End C09.
